@@ -18,7 +18,7 @@ RULE = ("per-run seed -> codec knobs (block limit 1..16/128, compression 0..9, i
         "distinct event-log SHA-256.")
 ASSUMPTIONS = ["expected postings = what field.index()/format.word_values produced for the document (the property's own definition); analysis is trusted",
                "term statistics are compared with the aggregates of the list only on readers without deletions (term-info records are physical: they still count deleted documents until a merge)",
-               "the plain-text codec is not reachable through the simulated system and is not covered; the in-memory codec is covered through BufferedWriter in C18"]
+               "the plain-text codec is write-only debugging output (no term-info reader round trip through the storage layer) and is not covered; the in-memory codec is covered through a BufferedWriter phase in 30% of runs"]
 TIERS = {"quick": {"runs": 1200, "time_budget": 100, "audit_every": 40},
          "thorough": {"runs": 50000, "time_budget": 1500, "audit_every": 100}}
 
@@ -26,12 +26,24 @@ TIERS = {"quick": {"runs": 1200, "time_budget": 100, "audit_every": 40},
 def generate(seed, tier):
     r = random.Random("%s/mode" % seed)
     want = [n for n in ("tc", "tv", "tb", "kw", "ng", "n", "b") if r.random() < 0.5]
-    return _hist.generate_hist(
+    mem = r.random() < 0.3
+    empty_base = mem and r.random() < 0.5
+    rec = _hist.generate_hist(
         ID, seed,
-        gen_kwargs={"ntx": (1, 5), "maxops": 8, "p_iofault": 0.0, "p_raise": 0.02, "p_cancel": 0.03,
+        gen_kwargs={"ntx": (0, 0) if empty_base else (1, 5), "maxops": 8, "p_iofault": 0.0, "p_raise": 0.02, "p_cancel": 0.03,
                     "p_restart": 0.3, "p_delete": r.choice((0.0, 0.0, 0.2)),
                     "merges": ("none", "none", "default", "optimize", "custom")},
         cfg_kwargs={"want": want})
+    if mem:
+        # a last batch of documents that sits in the in-memory codec (BufferedWriter)
+        # while it is read back, and is then flushed to disk
+        from whoosim.session import cfg_from_record
+        from whoosim.workload import DocGen
+        mr = random.Random("%s/mem" % seed)
+        dg = DocGen(cfg_from_record(rec["config"]), mr, nkeys=12)
+        dg.next_uid = 200000
+        rec["mem_docs"] = [dg.doc(sparse_p=0.2) for _ in range(mr.randint(2, 12))]
+    return rec
 
 
 def check_stats(reader, schema, got, where):
@@ -100,9 +112,63 @@ def make_hooks(s, record):
         if mx > s.cfg.blocklimit:
             s.count("multi_block_lists_seen")
 
+    def memory_phase(actor):
+        """The in-memory codec: documents held by a BufferedWriter are read back
+        (alone and combined with the committed segments) before they reach the disk."""
+        from whoosh.writing import BufferedWriter
+        mi = s.model
+        n0 = len(mi.docs)
+        try:
+            bw = BufferedWriter(actor.ix, period=None, limit=10000, writerargs=dict(s.cfg.writer_kwargs()))
+        except (SimAbort, SimKilled, HarnessError):
+            raise
+        except Exception as e:  # noqa
+            raise Violation("read_raised", "BufferedWriter() raised %s: %s" % (type(e).__name__, e), sig="read_raised:BufferedWriter:" + exc_sig(e))
+        try:
+            mw = mi.writer()
+            try:
+                for d in record["mem_docs"]:
+                    bw.add_document(**d)
+                    mw.add(d)
+            except (SimAbort, SimKilled, HarnessError):
+                raise
+            except Exception as e:  # noqa
+                raise Violation("read_raised", "BufferedWriter.add_document raised %s: %s" % (type(e).__name__, e), sig="read_raised:add_document:" + exc_sig(e))
+            mw.commit()
+            memdocs = mi.docs[n0:]
+            for label, rd, docs in (("in-memory segment", bw._get_ram_reader(), memdocs),
+                                    ("committed + in-memory segments", bw.reader(), mi.docs)):
+                try:
+                    res = compare_reader(rd, docs, mi.schema, mi.field_names, parts=("docs", "terms"))
+                    if res:
+                        raise Violation("postings_exact", "%s: %s" % (label, res[1]), sig="postings_exact:memory:%s" % res[0])
+                    if not rd.has_deletions():
+                        try:
+                            got = D.real_dump(rd, mi.schema, with_stats=True, parts=("terms",))
+                        except D.DumpError as e:
+                            raise Violation("read_raised", str(e), sig="read_raised:%s:%s" % (e.where.split("(")[0], exc_sig(e.exc)))
+                        check_stats(rd, mi.schema, got, label)
+                        s.count("memory_term_stats_checked", len(got["_stats"]))
+                finally:
+                    rd.close()
+            s.count("memory_phases")
+        finally:
+            try:
+                bw.close()
+            except (SimAbort, SimKilled, HarnessError):
+                raise
+            except Exception as e:  # noqa
+                raise Violation("read_raised", "BufferedWriter.close raised %s: %s" % (type(e).__name__, e), sig="read_raised:close:" + exc_sig(e))
+        s.count("commits")
+
     def finish(actor):
         actor.ix = None
         s.new_process("final")
+        if record.get("mem_docs"):
+            actor.ensure_index()
+            memory_phase(actor)
+            actor.ix = None
+            s.new_process("final2")
         if s.index_exists():
             actor.ensure_index()
             after_commit(actor)
